@@ -4,3 +4,4 @@ import QhttpGen.Tables
 import QhttpGen.Copier
 import QhttpGen.Sock
 import QhttpGen.Parser
+import QhttpGen.Proxy
